@@ -1036,7 +1036,7 @@ func (vc *VC) havocAllHeap(st *State) {
 	st.approx = true
 	ghost := map[string]string{}
 	for _, comp := range sortedKeys(vc.compSort) {
-		if strings.HasPrefix(comp, "ghost:") || strings.HasPrefix(comp, "local:") {
+		if strings.HasPrefix(comp, "ghost:") || strings.HasPrefix(comp, "local:") || vc.immutableComp(comp) {
 			ghost[comp] = vc.heapGet(st, comp, vc.compSort[comp])
 		}
 	}
